@@ -7,8 +7,13 @@ package verifrt
 import (
 	"encoding/json"
 	"fmt"
+	"math/rand"
 	"os"
+	"reflect"
+	"runtime"
 	"strconv"
+	"sync"
+	"time"
 )
 
 type draw struct {
@@ -194,3 +199,29 @@ func SetJSONSize(obj map[string]interface{}, size int64) {
 // Repeat tells a harness how often to run its body: once under the executor (which explores map iteration orders
 // itself), many times natively (Go randomises map iteration order per range statement).
 func Repeat() int { return 64 }
+
+// SameObject reports whether two maps, slices or pointers share their storage.
+func SameObject(a, b interface{}) bool {
+	va, vb := reflect.ValueOf(a), reflect.ValueOf(b)
+	if !va.IsValid() || !vb.IsValid() || va.Kind() != vb.Kind() {
+		return false
+	}
+	switch va.Kind() {
+	case reflect.Map, reflect.Slice, reflect.Pointer:
+		return va.Pointer() != 0 && va.Pointer() == vb.Pointer()
+	}
+	return false
+}
+
+// Pause is a point where other goroutines get a chance to run (natively: a scheduler yield and a tiny random sleep).
+func Pause() {
+	runtime.Gosched()
+	time.Sleep(time.Duration(rand.Intn(200)) * time.Microsecond)
+}
+
+var harnessMu sync.Mutex
+
+// Lock/Unlock protect a harness's own bookkeeping. Under the executor they are not scheduling points (the
+// executor runs one goroutine at a time anyway); natively they are a real mutex.
+func Lock()   { harnessMu.Lock() }
+func Unlock() { harnessMu.Unlock() }
